@@ -545,7 +545,11 @@ func (g *Gen) nextOp(f *sif.FileImage) *Op {
 		return op
 	case x < 64:
 		op := &Op{Kind: "del", T: g.topt(), Zero: r.Chance(1, 2), Compact: r.Chance(1, 2)}
-		switch y := r.Intn(10); {
+		switch y := r.Intn(12); {
+		case y >= 10:
+			// DeleteObjects with the caller's own selector function
+			op.Sel = g.callerPred(in)
+			g.count("op:del-caller-predicate")
 		case y < 6:
 			op.Sel = Sel{Kind: "id", N: int64(g.someID(in))}
 		case y < 7 && len(in.groups) > 0:
@@ -639,6 +643,49 @@ func (g *Gen) queryOp(in imgInfo) *Op {
 	return op
 }
 
+// callerPred: a caller's own selector function.  It accepts some of the objects present (by ID,
+// data type or group) and, in half of the cases, answers with an error of its own on some object —
+// often one that lies *after* objects it accepts, the way a function that inspects partition
+// metadata fails on the first object that is not a partition.
+func (g *Gen) callerPred(in imgInfo) Sel {
+	r := g.r
+	s := Sel{Kind: "P"}
+	ids := append([]uint32(nil), in.ids...)
+	for _, id := range ids {
+		if r.Chance(1, 3) {
+			s.M = append(s.M, id)
+		}
+	}
+	if len(s.M) == 0 && len(ids) > 0 {
+		s.M = []uint32{ids[0]}
+	}
+	if r.Chance(1, 4) && len(in.dts) > 0 {
+		s.MT = int64(pick(r, in.dts))
+	}
+	if r.Chance(1, 5) && len(in.groups) > 0 {
+		s.MG = pick(r, in.groups)
+	}
+	if r.Chance(1, 8) {
+		s.M = append(s.M, uint32(60+r.Intn(4))) // an ID nothing has
+	}
+	g.count("q:caller-predicate")
+	if r.Chance(1, 2) {
+		switch {
+		case len(ids) > 1 && r.Chance(2, 3):
+			// fail on a later object than the first accepted one
+			s.E = []uint32{ids[1+r.Intn(len(ids)-1)]}
+			g.count("q:caller-predicate-fails-late")
+		case len(in.dts) > 0 && r.Chance(1, 2):
+			s.ET = int64(pick(r, in.dts))
+			g.count("q:caller-predicate-fails-on-type")
+		case len(ids) > 0:
+			s.E = []uint32{pick(r, ids)}
+			g.count("q:caller-predicate-fails")
+		}
+	}
+	return s
+}
+
 func (g *Gen) selector(in imgInfo) Sel {
 	r := g.r
 	idv := func(present []uint32) int64 {
@@ -668,6 +715,9 @@ func (g *Gen) selector(in imgInfo) Sel {
 			}
 			return int64(1 + r.Intn(3))
 		}
+	}
+	if r.Chance(1, 8) {
+		return g.callerPred(in)
 	}
 	switch r.Intn(9) {
 	case 0:
